@@ -23,7 +23,12 @@ RULE = (
     "chunking families) x (selection condition: >p, <=p, band, outside-band, modulo, none, all) x (producer: x[dask "
     "mask] with the mask's own/other chunks, x[NumPy mask], x[..., 1-d dask/NumPy mask on one axis], nonzero[i], "
     "where(cond)[i], argwhere, flatnonzero, unique plain/return_counts/return_inverse/return_index, compress(dask/"
-    "NumPy/list cond, axis or None, cond possibly shorter), extract) x (one of 33 follow-on operations, each applied "
+    "NumPy/list cond, axis or None, cond possibly shorter), extract) x (one of 35 follow-on operations: slices "
+    "unit/step/negative, int, int list, take, rechunk by size/-1/auto/explicit tuples on the unknown or a known axis, "
+    "ravel, reshape, concatenate/stack with itself or a known array, + scalar / same-producer array / mirrored-"
+    "selection array of equal length / known array of the true shape in four chunkings / broadcast known vector, sum/"
+    "max/mean over all or one axis, len, shape, size, topk, cumsum, map_blocks, blocks[0], transpose, store, a second "
+    "boolean mask, where, diff, argmax, newaxis, tensordot, astype, flip, repeat; each applied "
     "(A) to the array with sizes still unknown and (B) after compute_chunk_sizes()). Oracle 1 (resolve): "
     "compute_chunk_sizes returns an array (itself) whose chunks have no NaN, sum to NumPy's shape, equal the shape of "
     "every block produced by executing the graph with the harness' executor (c03.check_array), equal the harness' own "
@@ -32,7 +37,9 @@ RULE = (
     "resolved array equals its NumPy twin (NotImplementedError = refusal). Oracle 3 (A): the follow-on on the "
     "unresolved array raises (any type; build or compute counted separately) or its COMPUTED result equals NumPy; "
     "len/shape/size may report NaN but never a wrong number. Non-trivial: the resolved unknown axis has >= 2 blocks of "
-    "different true sizes including an empty one; distinct = distinct case JSON."
+    "different true sizes including an empty one; distinct = distinct case JSON. A failing follow-on after resolving "
+    "is re-run on da.from_array(NumPy result, chunks=resolved chunks); buckets ending in |also-plain-array fail there "
+    "too (the operation mishandles zero-length chunks as such). Regions of listed open findings are skipped and counted."
 )
 ASSUMPTIONS = [
     "NumPy on the same data is the reference for producers and follow-on operations",
